@@ -16,7 +16,7 @@ use serde_json::{json, Value};
 use std::time::Instant;
 
 const SIMPS: [&str; 3] = ["flow", "clifford", "full"];
-const MODES: [&str; 4] = ["gflow", "gflow_simple_gauss", "gflow_up_to_perm", "flow"];
+const MODES: [&str; 7] = ["gflow", "gflow_simple_gauss", "gflow_up_to_perm", "flow", "simple_gauss_up_to_perm", "flow_up_to_perm", "default"];
 
 fn apply_simp<G: GraphLike>(name: &str, g: &mut G) {
     match name {
@@ -72,7 +72,7 @@ pub fn judge<G: GraphLike + ToCircuit>(st: &mut Stats, c: &Circuit, backend: &'s
             continue;
         }
         for mode in MODES {
-            if mode == "flow" && simp != "flow" {
+            if mode.starts_with("flow") && simp != "flow" {
                 continue; // the Gauss-free extractor is only promised for diagrams with a causal flow
             }
             if let Some((s, m)) = only {
@@ -88,6 +88,9 @@ pub fn judge<G: GraphLike + ToCircuit>(st: &mut Stats, c: &Circuit, backend: &'s
                     "gflow" => e.gflow(),
                     "gflow_simple_gauss" => e.gflow_simple_gauss(),
                     "gflow_up_to_perm" => e.gflow().up_to_perm(),
+                    "simple_gauss_up_to_perm" => e.gflow_simple_gauss().up_to_perm(),
+                    "flow_up_to_perm" => e.flow().up_to_perm(),
+                    "default" => &mut e,
                     _ => e.flow(),
                 };
                 e.extract().map_err(|e| e.0)
@@ -112,7 +115,7 @@ pub fn judge<G: GraphLike + ToCircuit>(st: &mut Stats, c: &Circuit, backend: &'s
                 continue;
             }
             let (mut got, _, _) = sim_circuit(&to_rcircuit(&ext, &[]).unwrap());
-            if mode == "gflow_up_to_perm" {
+            if mode.ends_with("up_to_perm") {
                 // the borrowed graph is left as bare wires: perm[o] = index of the input wired to output o
                 let mut perm = vec![usize::MAX; q];
                 for (o, &ov) in g2.outputs().iter().enumerate() {
@@ -268,7 +271,7 @@ pub fn run(rep: &mut Report) {
             st.sample(1, || json!({"qasm": c.to_qasm()}));
             watch_end();
         });
-        rep.absorb(name, &format!("every circuit with <= {} gates over {} gate instances on {} qubits x {{flow,clifford,full}} x {{gflow, simple-Gauss, up-to-perm, flow(flow only)}} x 2 back ends", d, alpha.len(), q), true, None, t0, stats);
+        rep.absorb(name, &format!("every circuit with <= {} gates over {} gate instances on {} qubits x {{flow,clifford,full}} x {{default, gflow, simple-Gauss, gflow up-to-perm, simple-Gauss up-to-perm, flow and flow up-to-perm (flow strategy only)}} x 2 back ends", d, alpha.len(), q), true, None, t0, stats);
     }
     // CLI end to end
     let cfams: Vec<(&str, usize, Vec<Gate>, usize)> = if quick { vec![("cli K(2,2,A_ct+swap)", 2, swap2, 2), ("cli K(3,1,A_full)", 3, alpha_full(3), 1)] } else { vec![("cli K(2,3,A_ct+swap)", 2, swap2, 3), ("cli K(3,2,A_full)", 3, alpha_full(3), 2)] };
